@@ -160,3 +160,95 @@ theorem slot_val_untouched (cfg : Cfg) (items : List (Item × Bytes)) (i : Nat) 
 
 
 end MpVerif.C11
+
+namespace MpVerif.C11
+
+theorem slot_noteMatch_log (d : OptDecl) (key : Bytes) (ob : Option Bytes) (st : St) (j : Nat) :
+    ((noteMatch d key ob st).slot j).log = (st.slot j).log := by
+  cases ob with
+  | none => simp [noteMatch]
+  | some b =>
+    simp only [noteMatch]
+    by_cases h : d.id = j
+    · subst h
+      by_cases hi : d.id < st.slots.length
+      · rw [slot_modify_same st _ hi]
+      · simp [St.modify, St.slot, List.set_eq_of_length_le (Nat.le_of_not_lt hi)]
+    · rw [slot_modify_other st _ h]
+
+/-- the entry (key body ↦ value) an item records in the wildcard option that owns slot `i`: an
+assignment whose key is matched by one of that option's patterns (the body is what the pattern cuts out) -/
+def wcAssign (cfg : Cfg) (i : Nat) : Item → Option (Bytes × Val)
+  | .assign key _ lit =>
+    match lookup cfg.table key with
+    | some (d, some body) => if d.id = i ∧ d.logged = true then some (body, lit.val) else none
+    | _ => none
+  | _ => none
+
+/-- no item reaches slot `i`'s record by another route (a recording option addressed by a plain name or
+synonym instead of a wildcard pattern: then the body would be the stale `wc_body_last_`) -/
+def OnlyPatternKeys (cfg : Cfg) (i : Nat) (items : List (Item × Bytes)) : Prop :=
+  ∀ x ∈ items, ∀ key sep lit d, x.1 = .assign key sep lit → lookup cfg.table key = some (d, none) → d.id = i → d.logged = false
+
+theorem slot_log_applyItem (cfg : Cfg) (it : Item) (st : St) (i : Nat) (hi : i < st.slots.length)
+    (hk : ∀ key sep lit d, it = .assign key sep lit → lookup cfg.table key = some (d, none) → d.id = i → d.logged = false) :
+    ((applyItem cfg it st).slot i).log =
+      (match wcAssign cfg i it with | some e => [e] | none => []) ++ (st.slot i).log := by
+  cases it with
+  | assign key sep lit =>
+    simp only [applyItem, findOption, wcAssign]
+    cases hl : lookup cfg.table key with
+    | none => simp
+    | some r =>
+      obtain ⟨d, ob⟩ := r
+      simp only [Option.map_some, slot_doEcho]
+      by_cases hid : d.id = i
+      · subst hid
+        have hi' : d.id < (noteMatch d key ob st).slots.length := by rw [(values_noteMatch _ _ _ _).2.2]; exact hi
+        rw [slot_modify_same _ _ hi']
+        cases ob with
+        | none =>
+          have hlg := hk key sep lit d rfl hl rfl
+          simp [setValue, hlg, noteMatch]
+        | some body =>
+          cases hlg : d.logged with
+          | false => simp [setValue, hlg, slot_noteMatch_log]
+          | true =>
+            simp only [setValue, hlg, if_true, noteMatch, slot_modify_same st _ hi]
+            simp
+      · rw [slot_modify_other _ _ hid]
+        cases ob with
+        | none => simp [noteMatch]
+        | some body => simp [hid, slot_noteMatch_log]
+  | query key sep =>
+    simp only [applyItem, findOption, wcAssign]
+    cases hl : lookup cfg.table key with
+    | none => simp
+    | some r => simp [slot_doEcho, slot_noteMatch_log]
+  | unknown key pre eq => simp [applyItem, addErr, wcAssign, St.slot]
+  | flagArg key pre post junk =>
+    simp only [applyItem, findOption, wcAssign]
+    cases hl : lookup cfg.table key with
+    | none => simp
+    | some r => simp [addErr, St.slot]; exact slot_noteMatch_log _ _ _ _ _
+
+/-- in a list scanned from the newest entry, the first entry with body `b` is the last one written -/
+theorem find_reverse_append {α : Type} (p : α → Bool) (l init : List α) :
+    (l.reverse ++ init).find? p = ((l.filter p).getLast?).or (init.find? p) := by
+  induction l generalizing init with
+  | nil => simp
+  | cons a t ih =>
+    rw [List.reverse_cons, List.append_assoc, ih]
+    cases hp : p a with
+    | true =>
+      simp only [List.filter_cons, hp, if_true, List.singleton_append, List.find?_cons]
+      cases ht : t.filter p with
+      | nil => simp
+      | cons y ys =>
+        cases h : (y :: ys).getLast? with
+        | none => simp at h
+        | some z => simp [List.getLast?_cons, h]
+    | false =>
+      simp only [List.filter_cons, hp, Bool.false_eq_true, if_false, List.singleton_append, List.find?_cons]
+
+end MpVerif.C11
